@@ -135,33 +135,70 @@ impl EvaluationResult {
     }
 }
 
+/// The identifiers whose bound expressions are being evaluated, innermost first.
+#[derive(Clone, Copy)]
+struct Expanding<'a> {
+    ident: &'a str,
+    outer: Option<&'a Expanding<'a>>,
+}
+
+impl Expanding<'_> {
+    fn contains(&self, ident: &str) -> bool {
+        self.ident == ident || self.outer.is_some_and(|outer| outer.contains(ident))
+    }
+}
+
 impl Expr {
     pub fn eval<K, V>(&self, var_env: &HashMap<K, V>) -> GenApiResult<EvaluationResult>
     where
         K: Borrow<str> + Eq + Hash + fmt::Debug,
         V: Borrow<Expr> + fmt::Debug,
     {
+        self.eval_in(var_env, None)
+    }
+
+    fn eval_in<K, V>(
+        &self,
+        var_env: &HashMap<K, V>,
+        expanding: Option<&Expanding<'_>>,
+    ) -> GenApiResult<EvaluationResult>
+    where
+        K: Borrow<str> + Eq + Hash + fmt::Debug,
+        V: Borrow<Expr> + fmt::Debug,
+    {
         match self {
-            Self::BinOp { kind, lhs, rhs } => lhs.eval_binop(*kind, rhs, var_env),
-            Self::UnOp { kind, expr } => expr.eval_unop(*kind, var_env),
+            Self::BinOp { kind, lhs, rhs } => lhs.eval_binop(*kind, rhs, var_env, expanding),
+            Self::UnOp { kind, expr } => expr.eval_unop(*kind, var_env, expanding),
             Self::If { cond, then, else_ } => {
-                if cond.eval(var_env)?.as_bool() {
-                    then.eval(var_env)
+                if cond.eval_in(var_env, expanding)?.as_bool() {
+                    then.eval_in(var_env, expanding)
                 } else {
-                    else_.eval(var_env)
+                    else_.eval_in(var_env, expanding)
                 }
             }
             &Self::Integer(i) => Ok(i.into()),
             &Self::Float(f) => Ok(f.into()),
-            Self::Ident(s) => var_env
-                .get(s.as_str())
-                .ok_or_else(|| {
-                    GenApiError::invalid_node(
-                        format!("ident not found in variable env: {} not found", s).into(),
-                    )
-                })?
-                .borrow()
-                .eval(var_env),
+            Self::Ident(s) => {
+                // An expression that refers to itself, directly or through other expressions, has no value.
+                if expanding.is_some_and(|expanding| expanding.contains(s)) {
+                    return Err(GenApiError::invalid_node(
+                        format!("expression bound to {} refers to itself", s).into(),
+                    ));
+                }
+                let expanding = Expanding {
+                    ident: s,
+                    outer: expanding,
+                };
+                var_env
+                    .get(s.as_str())
+                    .ok_or_else(|| {
+                        GenApiError::invalid_node(
+                            format!("ident not found in variable env: {} not found", s).into(),
+                        )
+                    })?
+                    .borrow()
+                    .eval_in(var_env, Some(&expanding))
+            }
         }
     }
 
@@ -170,6 +207,7 @@ impl Expr {
         op: BinOpKind,
         rhs: &Self,
         var_env: &HashMap<K, V>,
+        expanding: Option<&Expanding<'_>>,
     ) -> GenApiResult<EvaluationResult>
     where
         K: Borrow<str> + Eq + Hash + fmt::Debug,
@@ -179,13 +217,17 @@ impl Expr {
 
         Ok(match op {
             BinOpKind::And => {
-                (self.eval(var_env)?.as_bool() && rhs.eval(var_env)?.as_bool()).into()
+                (self.eval_in(var_env, expanding)?.as_bool()
+                    && rhs.eval_in(var_env, expanding)?.as_bool())
+                .into()
             }
-            BinOpKind::Or => (self.eval(var_env)?.as_bool() || rhs.eval(var_env)?.as_bool()).into(),
+            BinOpKind::Or => (self.eval_in(var_env, expanding)?.as_bool()
+                || rhs.eval_in(var_env, expanding)?.as_bool())
+            .into(),
 
             _ => {
-                let lhs = self.eval(var_env)?;
-                let rhs = rhs.eval(var_env)?;
+                let lhs = self.eval_in(var_env, expanding)?;
+                let rhs = rhs.eval_in(var_env, expanding)?;
 
                 macro_rules! apply_arithmetic_op {
                     ($fint:ident, $ffloat:ident) => {{
@@ -259,6 +301,7 @@ impl Expr {
         &self,
         op: UnOpKind,
         var_env: &HashMap<K, V>,
+        expanding: Option<&Expanding<'_>>,
     ) -> GenApiResult<EvaluationResult>
     where
         K: Borrow<str> + Eq + Hash + fmt::Debug,
@@ -266,7 +309,7 @@ impl Expr {
     {
         use std::ops::Neg;
 
-        let res = self.eval(var_env)?;
+        let res = self.eval_in(var_env, expanding)?;
         macro_rules! apply_op {
             ($fint:ident, $ffloat:ident) => {
                 match res {
